@@ -23,6 +23,7 @@ CfgOfRec(j) ==
    defaultFuncs |-> SetOf(j.defaultFuncs), userFuncs |-> SetOf(j.userFuncs), wmode |-> j.wmode,
    white |-> SetOf(j.white), black |-> SetOf(j.black), required |-> SetOf(j.required),
    forbidden |-> SetOf(j.forbidden), metric |-> j.metric, entryPartial |-> j.entryPartial, dummy |-> j.dummy,
+   deps |-> {[s |-> h.s, box |-> ToBox(h.box)] : h \in SetOf(j.deps)},
    val |-> [nm \in DOMAIN j.val |-> ToVal(j.val[nm])],
    answers |-> [i \in 1..Len(j.answers) |-> [boxes |-> ToBoxes(j.answers[i].boxes), g |-> j.answers[i].g]]]
 
